@@ -3,7 +3,7 @@
    = w workers, size bound m (0 = none), wrapper mode md, Poll re-checks the cancel channel (rc), Shutdown always
    broadcasts (bc).  [run s labels] executes an arbitrary schedule of client calls, clock ticks and worker steps. *)
 From Coq Require Import NArith List Bool Relations.
-From Verif.C18_Timed Require Import Model Heap Micro Proofs Witness Progress.
+From Verif.C18_Timed Require Import Model Heap Micro Proofs Witness Progress TaskExec Fair.
 Import ListNotations.
 
 (* For every configuration (also the pinned variants) and every schedule: a value is never delivered before its
@@ -54,39 +54,100 @@ Theorem C18_eventually_once_progress : forall w m md rc bc ls,
   pend s <> [] -> exists d i ws, nth_error (workers s) i = Some ws /\ can_step (step s (LTick d)) ws = true.
 Proof. exact progress_run. Qed.
 
+(* "Eventually exactly once", as termination under fairness (all configurations, >= 1 worker).  After any history ls of
+   client calls, take ANY infinite schedule f of clock ticks and worker steps that is fair ([fair w s f], Fair.v: no
+   further client call; each of the w workers is scheduled again and again; the clock eventually passes every bound,
+   hence every due time).  Then after finitely many steps nothing is queued or held, every worker waits or has exited,
+   and every accepted element has been delivered, cancelled, dropped by the size bound or discarded by the
+   CancelPendingElements flag ([all_delivered]); with C18_at_most_once: delivered exactly once unless cancelled/dropped. *)
+Theorem C18_eventually_once_fair : forall w m md rc bc ls (f : sched), 0 < w ->
+  let s := run (init w m md rc bc) ls in
+  fair w s f ->
+  exists n, let s' := run s (prefix f n) in
+    waiting s' = [] /\ pend s' = [] /\ (forall x, In x (workers s') -> x = WWait \/ x = WExit) /\
+    all_delivered (log s') = true.
+Proof. exact fair_delivery. Qed.
+
+(* the variant behind it, for ANY state: [mu] = 8 per heap element + the rank of every worker state never increases on
+   a tick, and a worker step either changes nothing at all or strictly decreases it *)
+Theorem C18_measure_decreases : forall s l, internal l = true ->
+  mu (step s l) <= mu s /\ (forall w c, l = LWorker w c -> step s l = s \/ mu (step s l) < mu s).
+Proof. exact measure_decreases. Qed.
+
+(* non-vacuity: the round-robin schedule (tick; worker 0; tick; worker 1; ...) is fair from every state, and on a
+   concrete state with two dropped, one cancelled, one popped and one queued element it delivers the remaining two *)
+Example C18_fair_nonvacuous :
+  (forall w s, 0 < w -> fair w s (round_robin w 0)) /\
+  mu fair_demo = 16 /\ all_delivered (log fair_demo) = false /\
+  (let s' := run fair_demo (prefix (round_robin 2 0) 30) in
+   waiting s' = [] /\ workers s' = [WWait; WWait] /\ delivered (log s') = [(0, 6%N); (1, 3%N)] /\
+   all_delivered (log s') = true /\ mu s' = 0).
+Proof. exact fair_nonvacuous. Qed.
+
 (* D18d: the pinned Shutdown (broadcast only when the heap is empty) leaves a worker asleep for ever. *)
 Theorem C18_refuted_shutdown_sleeper :
   exists ls, let s := run (init 2 0 IfOwn true false) ls in
   workers s = [WExit; WWait] /\ heap s = [] /\ shut s = true.
 Proof. exists d18d. destruct refuted_shutdown_sleeper_pinned as (A & B & C & _). auto. Qed.
 
-(* TaskExecutor, step-local (any state): Cancel(id) returns true exactly when the map tracks a task for id; it
-   then untracks id and marks the task dead ... *)
-Theorem C18_task_executor_cancel_partial : forall s k,
-  let s' := tcancel_step s k in
-  hd EReject (log s') = ETCancel k (match tget k (tmap s) with Some _ => true | None => false end) /\
-  tget k (tmap s') = None /\ (forall e, tget k (tmap s) = Some e -> In e (dead s')).
-Proof. exact tcancel_result. Qed.
+(* ---------- TaskExecutor (repaired wrapper IfOwn; every worker count w, size bound m, Poll variant rc, Shutdown variant bc) ----------
+   [dead s] = ghost set of the tasks that were replaced by ExecuteAt(id) or removed by a Cancel(id) = true;
+   [pending_task s k e] (TaskExec.v) = task e of identifier k is queued (in the heap or held by a worker whose wrapper has
+   not decided yet) and not dead.  [te_guard s0 ls] holds when no label of the schedule produces one of the three
+   patterns of the finding taskexecutor-stale-identifier, checked in the state where the label is executed ([te_ok]):
+   an Add whose size bound drops an element, an effective Shutdown with CancelPendingElements, a Cancel() through the
+   returned *ScheduledTask of a task that the map still tracks.
+   (1) ALL schedules, no guard: a dead task never starts - not in the schedule so far, not in any continuation
+       (so the task replaced by a re-schedule and the task removed by Cancel(id) = true never run; take ls := ls ++ [l]).
+   For ALL guarded schedules, in the reached state s:
+   (2) the map tracks e for k  <->  e is the pending task of k ("a tracked task is really pending", and conversely);
+   (3) at most one pending task per identifier;
+   (4) Cancel(k) returns true iff a pending task of k exists; that task becomes dead (hence never starts, by (1)),
+       k has no pending task afterwards, the other identifiers keep theirs;
+   (5) an accepted re-schedule of k makes the new task (nxt s) the pending task of k, the previously pending one is a
+       different task and dead (never starts, by (1)), the other identifiers keep theirs. *)
+Theorem C18_task_executor : forall w m rc bc ls,
+  let s0 := init w m IfOwn rc bc in let s := run s0 ls in
+  (forall e ls2, In e (dead s) -> ~ In e (started (log (run s ls2)))) /\
+  (te_guard s0 ls = true ->
+    (forall k e, tget k (tmap s) = Some e <-> pending_task s k e) /\
+    (forall k e1 e2, pending_task s k e1 -> pending_task s k e2 -> e1 = e2) /\
+    (forall k, let s' := step s (LTCancel k) in
+       exists r, hd EReject (log s') = ETCancel k r /\
+         (r = true <-> exists e, pending_task s k e) /\
+         (forall e, pending_task s k e -> In e (dead s')) /\
+         (forall e, ~ pending_task s' k e) /\
+         (forall k' e, k' <> k -> (pending_task s' k' e <-> pending_task s k' e))) /\
+    (forall t k, shut s = false -> te_ok s (LAdd t (Some k)) = true ->
+       let s' := step s (LAdd t (Some k)) in
+       pending_task s' k (nxt s) /\
+       (forall e, pending_task s k e -> e < nxt s /\ In e (dead s')) /\
+       (forall k' e, k' <> k -> (pending_task s' k' e <-> pending_task s k' e)))).
+Proof. exact task_executor_all. Qed.
 
-(* ... re-scheduling replaces: the map (a function: at most one tracked task per identifier) then holds the new
-   task and the old one is dead ... *)
-Theorem C18_task_executor_replace_partial : forall s t k, shut s = false ->
-  exists id, tget k (tmap (add_step s t (Some k))) = Some id /\
-             (forall e, tget k (tmap s) = Some e -> e <> id -> In e (dead (add_step s t (Some k)))).
-Proof. exact add_replaces. Qed.
+(* non-vacuity of the guard and of every clause: bound 2 never exceeded, task 0 of identifier 1 is replaced by task 2
+   while a worker holds it (it is skipped later), Cancel(2) = true then false, task 2 starts; a second Shutdown with
+   CancelPendingElements is a no-op and passes the guard *)
+Example C18_task_executor_nonvacuous :
+  let s0 := init 1 2 IfOwn true true in
+  te_guard s0 te_demo = true /\
+  (let s := run s0 (firstn 4 te_demo) in
+     dead s = [0] /\ tmap s = [(1, 2); (2, 1)] /\ pending_task s 1 2 /\ pending_task s 2 1 /\ ~ pending_task s 1 0) /\
+  (let s := run s0 te_demo in dead s = [1; 0] /\ started (log s) = [2] /\ log s = te_demo_log) /\
+  te_guard s0 [LAdd 5%N (Some 1); LShutdown false true; LShutdown true true] = true.
+Proof. exact te_demo_guarded. Qed.
 
-(* ... and the repaired wrapper starts the callback of a task only if the map tracks exactly this task. *)
-Theorem C18_task_executor_start_partial : forall s w c e k,
+(* finding taskexecutor-stale-identifier: the guard is exact. Each of the three excluded patterns alone (all labels
+   before it pass the guard) leaves identifier 1 in the map with no pending task, and Cancel(1) returns true. *)
+Theorem C18_refuted_stale_identifier :
+  stale_case 1 stale_bound /\ stale_case 0 stale_direct /\ stale_case 0 stale_discard.
+Proof. exact refuted_stale_identifier. Qed.
+
+(* step-local fact about the wrapper (any state, not only reachable ones) *)
+Theorem C18_task_executor_start_local : forall s w c e k,
   mode s = IfOwn -> nth_error (workers s) w = Some (WDeliv e) -> ekey e = Some k ->
   hd EReject (log (worker_step s w c)) = EStart (eid e) -> tget k (tmap s) = Some (eid e).
 Proof. exact start_requires_tracked. Qed.
-
-(* The full inductive statement (not proved; see notes/C18.md): *)
-Definition C18_task_executor_full_statement : Prop :=
-  forall w ls, let s := run (init w 0 IfOwn true true) ls in
-  (forall e, In e (dead s) -> ~ In e (started (log s))) /\
-  (forall k e, tget k (tmap s) = Some e -> fcancel s = false ->
-     exists x, In x (pend s) /\ eid x = e /\ ekey x = Some k).
 
 (* D18a: the pinned wrapper. Cancel(1) = false while task 1 of identifier 1 is pending and untracked; it then runs. *)
 Theorem C18_refuted_wrapper :
@@ -123,9 +184,11 @@ Print Assumptions C18_cancelled_never_delivered.
 Print Assumptions C18_cancel_closes.
 Print Assumptions C18_refuted_cancel_late.
 Print Assumptions C18_eventually_once_progress.
+Print Assumptions C18_eventually_once_fair.
+Print Assumptions C18_measure_decreases.
 Print Assumptions C18_refuted_shutdown_sleeper.
-Print Assumptions C18_task_executor_cancel_partial.
-Print Assumptions C18_task_executor_replace_partial.
-Print Assumptions C18_task_executor_start_partial.
+Print Assumptions C18_task_executor.
+Print Assumptions C18_refuted_stale_identifier.
+Print Assumptions C18_task_executor_start_local.
 Print Assumptions C18_refuted_wrapper.
 Print Assumptions C18_refuted_cancel_true_after_drop.
